@@ -1,5 +1,5 @@
 (* C18 — HDLC transport reassembles segmented responses exactly, for every segmentation. *)
-From Dlms Require Import Base AddrModel FrameModel HdlcConnModel HdlcStreamProofs TransportModel TransportProofs TransportE2E.
+From Dlms Require Import Base AddrModel AddrSpec FrameModel FrameSpec HdlcConnModel HdlcStreamProofs TransportModel TransportProofs TransportE2E TransportMeter.
 
 (* a request that fits the maximum information size goes out as ONE information frame whose payload
    is the LLC command header followed by the APDU, unsegmented, numbered with the link's counters *)
@@ -57,8 +57,48 @@ Theorem C18_send_end_to_end : forall t telegram items later answer l_end,
                             f_segmented := false; f_final := true; f_ssn := server_ssn l; f_rsn := server_rsn l |} = Ok fb
     /\ t_send t telegram = (Ok answer, upd t {| c_link := l_end; c_buf := []; c_pos := 1 |} [] s')
     /\ written s' = written (t_ser t) ++ fb :: rr_list t (after_request l) items
-    /\ readable s' = [] /\ pending s' = later.
+    /\ readable s' = [] /\ pending s' = later /\ pos_sched s'.
 Proof. exact send_end_to_end. Qed.
+
+(* ---------- the whole statement, no acceptance hypothesis left ----------
+   The meter splits its answer (LLC response header + APDU) into the segments `ps` in ANY way - any
+   number of segments, any sizes the frame format can carry (`segment_ok`) - and sends each as the
+   STANDARD information frame (`std_frame`, the C09 reference layout) with the numbers the link
+   procedure prescribes, one per receive-ready.  That these frames are accepted is the C09 theorem
+   (parsing the standard bytes returns the frame), that the link admits them is read off the
+   generated table.  Then, for any read granularity, send() returns exactly the answer, has written
+   the request and exactly one receive-ready frame per segment but the last, and the link is idle. *)
+Theorem C18_send_any_segmentation : forall t telegram ps later answer,
+  t_out t = [] -> c_buf (t_conn t) = [] -> c_pos (t_conn t) = 1%nat -> l_state (c_link (t_conn t)) = 1 ->
+  readable (t_ser t) = [] -> pos_sched (t_ser t) ->
+  (0 < length (LLC_COMMAND ++ telegram) <= t_max t)%nat -> (15 <= t_max t <= 2032)%nat ->
+  addr_ok (t_client t) -> addr_ok (t_server t) -> a_server (t_client t) = false -> a_server (t_server t) = true ->
+  ps <> [] -> Forall (segment_ok (t_client t) (t_server t)) ps -> concat ps = LLC_RESPONSE ++ answer ->
+  let la := after_request (c_link (t_conn t)) in
+  let items := meter_items (t_client t) (t_server t) (client_ssn la) (client_rsn la) ps in
+  pending (t_ser t) = map it_F items ++ later ->
+  exists fb s',
+    t_send t telegram = (Ok answer, upd t {| c_link := link_after la ps; c_buf := []; c_pos := 1 |} [] s')
+    /\ l_state (link_after la ps) = 1
+    /\ written s' = written (t_ser t) ++ fb :: rr_list t la items
+    /\ length (rr_list t la items) = (length ps - 1)%nat
+    /\ readable s' = [] /\ pending s' = later /\ pos_sched s'.
+Proof. exact send_any_segmentation. Qed.
+
+(* sessions: ANY number of exchanges on one transport, each answer segmented in any way; the
+   sequence numbers wrap as the session goes on (induction over the exchanges: each one leaves the
+   transport in the state the next one starts from) *)
+Theorem C18_session : forall es t later,
+  t_out t = [] -> c_buf (t_conn t) = [] -> c_pos (t_conn t) = 1%nat -> l_state (c_link (t_conn t)) = 1 ->
+  readable (t_ser t) = [] -> pos_sched (t_ser t) -> (15 <= t_max t <= 2032)%nat ->
+  addr_ok (t_client t) -> addr_ok (t_server t) -> a_server (t_client t) = false -> a_server (t_server t) = true ->
+  Forall (ex_ok t) es ->
+  pending (t_ser t) = session_pending t (c_link (t_conn t)) es ++ later ->
+  exists s',
+    run_session t (map (fun e => fst (fst e)) es)
+    = (map (fun e => Ok (snd e)) es, upd t {| c_link := session_link (c_link (t_conn t)) es; c_buf := []; c_pos := 1 |} [] s')
+    /\ l_state (session_link (c_link (t_conn t)) es) = 1 /\ readable s' = [] /\ pending s' = later.
+Proof. exact session_any_segmentations. Qed.
 
 (* the receive-ready frame acknowledges the segment just received: N(R) = N(S) + 1 mod 8, and the
    link's numbering stays consistent, so this holds for every later segment too (numbers wrap) *)
@@ -132,8 +172,26 @@ Proof.
   - repeat split; vm_compute; reflexivity.
 Qed.
 
+Definition ex_ps : list bytes := [[230; 231; 0; 196; 1; 126]; [126; 0; 9]].
+Example C18_any_segmentation_nonvacuous :
+  let la := after_request (c_link (t_conn ex_t1)) in
+  ex_ps <> [] /\ Forall (segment_ok (t_client ex_t1) (t_server ex_t1)) ex_ps /\
+  addr_ok (t_client ex_t1) /\ addr_ok (t_server ex_t1) /\
+  concat ex_ps = LLC_RESPONSE ++ [196; 1; 126; 126; 0; 9] /\
+  pending (t_ser ex_t1) = map it_F (meter_items (t_client ex_t1) (t_server ex_t1) (client_ssn la) (client_rsn la) ex_ps) ++ [ex_ua] /\
+  Forall (ex_ok ex_t1) [([192; 1; 193; 0], ex_ps, [196; 1; 126; 126; 0; 9])].
+Proof.
+  cbv zeta. split; [discriminate|]. split.
+  - repeat constructor; try (vm_compute; lia); try (vm_compute; discriminate).
+  - split; [vm_compute; discriminate|]. split; [vm_compute; split; discriminate|]. split; [reflexivity|]. split; [vm_compute; reflexivity|].
+    constructor; [|constructor]. unfold ex_ok. split; [vm_compute; lia|]. split; [discriminate|]. split; [|reflexivity].
+    repeat constructor; try (vm_compute; lia); try (vm_compute; discriminate).
+Qed.
+
 Print Assumptions C18_collect_any_segmentation.
 Print Assumptions C18_send_strips_llc.
 Print Assumptions C18_send_end_to_end.
 Print Assumptions C18_connect.
 Print Assumptions C18_disconnect.
+Print Assumptions C18_send_any_segmentation.
+Print Assumptions C18_session.
